@@ -19,7 +19,7 @@ import (
 type c15Case struct {
 	Redir  string `json:"redir"`
 	Flow   string `json:"flow"`   // login otplogin totp sms oauth2
-	InBody bool   `json:"inbody"` // form mode: deliver redir in the body instead of the query
+	InBody bool   `json:"inbody"` // deliver redir in the body (form field / JSON member) instead of the query
 	JSON   bool   `json:"json"`
 	HTTPS  bool   `json:"https"`
 	Mount  string `json:"mount"`
@@ -69,6 +69,14 @@ func c15Run(c c15Case) *Violation {
 		return []string{c.Redir, c.Redir2}
 	}
 	deliver := func(q *harness.Req) {
+		if c.InBody && c.JSON && q.Method == "POST" {
+			// API clients: the value is a member of the JSON body (a second one, if any, in the query)
+			q.Form["redir"] = c.Redir
+			if c.Redir2 != "" {
+				q.Query = url.Values{"redir": {c.Redir2}}
+			}
+			return
+		}
 		if c.InBody && !c.JSON && q.Method == "POST" {
 			// hostile value in the body, the other (if any) in the query, or both in the body
 			q.FormMulti = url.Values{}
@@ -234,7 +242,7 @@ func c15GenRedir(t *rapid.T) string {
 
 func c15Gen(t *rapid.T) c15Case {
 	c := c15Case{Redir: c15GenRedir(t), Flow: pick(t, "flow", c15Flows...), JSON: chance(t, "json", 40), HTTPS: chance(t, "https", 50), Mount: pick(t, "mount", "/auth", "/auth", "")}
-	c.InBody = !c.JSON && chance(t, "inbody", 40)
+	c.InBody = chance(t, "inbody", 40)
 	c.Pre = pick(t, "pre", "", "", "", "loggedin", "other")
 	c.AtFirst = (c.Flow == "totp" || c.Flow == "sms") && chance(t, "atfirst", 40)
 	if c.Flow == "oauth2" && chance(t, "o2err", 30) {
